@@ -33,7 +33,8 @@ class Ctx:
     self.samples = []
     self.notes = []
     import random
-    self.rnd = random.Random(seed * 1000003 + hash(name) % 1000)
+    import zlib
+    self.rnd = random.Random(seed * 1000003 + zlib.crc32(name.encode()) % 100003)
 
   @property
   def thorough(self):
@@ -75,7 +76,14 @@ def _js(x):
     return repr(x)[:300]
 
 
+LOAD_ERRORS = {}   # module name -> traceback text (a broken module only affects the property it is named after)
+
+
 def load_all():
   import bounded as pkg
+  import traceback
   for m in pkgutil.iter_modules(pkg.__path__):
-    importlib.import_module(f"bounded.{m.name}")
+    try:
+      importlib.import_module(f"bounded.{m.name}")
+    except Exception:
+      LOAD_ERRORS[m.name] = traceback.format_exc()[-1500:]
